@@ -148,8 +148,14 @@ func (c *criteriaToMix) Spec_mix(
 }
 
 func (c *criteriaToMix) Spec_criterion(currentCriteria *model.Criteria, valRange *utils.ValueRange) model.Criterion {
+	// C18: a new id that names the two mixed criteria; C20: ids of mixed mixed criteria must not grow without bound
+	// (Fibonacci growth exhausted the memory), beyond 128 bytes a short generated name is used instead
+	name := "__" + c.c1.Id + "+" + c.c2.Id + "__"
+	if len(name) > 128 {
+		name = "__mixedCriterion__"
+	}
 	return model.Criterion{
-		Id:          currentCriteria.Spec_NotUsedName("__" + c.c1.Id + "+" + c.c2.Id + "__"),
+		Id:          currentCriteria.Spec_NotUsedName(name),
 		Type:        model.Gain,
 		ValuesRange: valRange,
 	}
